@@ -42,3 +42,11 @@ claim('C07',
       "Bounded symbolic model checking of the real normalisation code (scale invariance of CPM for all non-negative rows and all k>0, raw+normalise == declared log2(CPM+1), NRA with log2 uninterpreted), of the real marker-cache + assemble_query_data chain under gene permutation / extra genes (term identity of the kernel inputs), and of is_data_ge_zero on the h5 model (every pattern, symbolic signed values, dense/CSR/CSC, chunked and contiguous).",
       "floats as exact reals; log2 uninterpreted (only congruence used); h5py model",
       "DESIGN.md §4 C07")
+claim('C09',
+      "Bounded symbolic model checking of the real reference-statistics stage in memory (dispatch, work split, per-chunk routing by cell name, summary kernel, buffer merge, empty-file creation) on the h5 / multiprocessing models: every labelling of the cells (any cluster or unlabelled), symbolic expression values, symbolic rows_at_a_time and worker count, 1-2 files, dense/CSR; every written table is proved equal to the direct definition (counts exactly, sums as reals).",
+      "quick tier does not yet cover coarsening (truncate_precompute) and per-dataset merging; floats as reals (summation order outside); log2 uninterpreted for raw input",
+      "DESIGN.md §4 C09")
+claim('C17',
+      "Bounded symbolic model checking, relational: for every child->parent map of the listed sizes and every reduction (flatten / drop of each non-leaf level) the real reduced tree is proved equal to an independently built taxonomy that never had the level, the real level loop is run on both with one shared vote oracle and the records are proved identical, and the back-filled levels are proved to be the ancestors. The marker side: real create_marker_cache_from_specified_markers on the reduced tree gives the same cache with and without the marker lists of the removed parents, for every table / query subset in the bounds.",
+      "the _run_mapping call sequence itself (reduce before reconciliation, original tree kept for output, union of lists when flattening) is not yet covered by a stage-level harness",
+      "DESIGN.md §4 C17")
